@@ -6,3 +6,16 @@ open Nima.C13
 #print axioms tie_single_binding
 #print axioms tie_literals
 #print axioms tie_coerce_order
+#print axioms escapeNix_table
+#print axioms string_roundtrip
+#print axioms readData_of_lex
+#print axioms readData_renderExpr
+#print axioms readBinding_renderBinding
+#print axioms roundtrip_partial
+#print axioms cex_neg_in_list
+#print axioms cex_float_no_dot
+#print axioms cex_float_no_dot_binding
+#print axioms cex_int_out_of_range
+#print axioms render_deterministic
+#print axioms cex_stable_inline_set
+#print axioms cex_stable_inline_list
